@@ -360,6 +360,9 @@ func cmdCheck(args []string) {
 		for k := range c.usedSpecFns {
 			trusted["uninterpreted spec function: "+k] = true
 		}
+		for k := range c.usedSums {
+			trusted["ghost sum "+k+": maintained by the generator at every map update; assumes the summand of a stored entry does not change while it is stored"] = true
+		}
 	}
 	tb := []string{"govc (VC generator written for this task: loader, go/ssa symbolic executor, contract parser)", "golang.org/x/tools/go/ssa v0.29.0",
 		"SMT solvers z3 5.1.0 / z3 4.8.12 / cvc5 1.0.3", "integers: exact machine semantics for + - * and conversions (SMT Int with wrap-around); spec integers are mathematical",
